@@ -38,6 +38,16 @@
                           which xmlparser lets through with an empty prefix positioned at the colon - is
                           refused with `UnknownPrefix("", colon .. end of name)` in every builder state, nothing
                           interned; an absent (offset 0) or non-empty prefix passes; the three texts as strings
+
+  COMPLETENESS of the rejection list (last section; Lemmas/ParseNsComplete*.lean):
+    C03_accepts_iff_well_spelled (+ _erased, _unguarded), C03_accepted_is_denoted, C03_well_spelled_accepted
+                          under the token-shape contract and without empty text tokens, `build` accepts a token
+                          list IFF it is - up to version-1.0 XML declaration tokens - exactly the token list of a
+                          well-formed spelling (`WellNsDoc`, Props/C02.lean), and the tree is the denoted document
+    C03_rejects_everything_else   every other such list is refused with an error (no panic, no tree)
+    C03_string_accepts_iff, C03_string_accepted_is_denoted, C03_string_rejects_everything_else,
+    C03_lex_no_empty_text   the same for `parse` / `parse_fragment` on ANY string (no hypothesis)
+    C03_empty_text_token_corner, C03_declaration_skipped   the two token-level corners outside `WellNsDoc`
 -/
 import XotModel.Lemmas.ParseSound
 import XotModel.Lemmas.ParseNoPanic
@@ -57,6 +67,7 @@ import XotModel.Lemmas.BytesTotal
 import XotModel.Lemmas.ValidDoc
 import XotModel.Lemmas.ColonWitness
 import XotModel.Lemmas.ParseErase
+import XotModel.Lemmas.ParseNsCompleteLex
 
 namespace XotModel.Props
 open XotModel XotModel.Witness
@@ -1063,5 +1074,243 @@ example : validateWellFormedDocument (.node .document [.node (.element 2) [], .n
 example : validateWellFormedDocument (.node .document [.node (.element 2) [], .node (.element 3) [],
     .node (.text ['x']) []]) = .error .textAtTopLevel := by decide
 example : validateWellFormedDocument (.node (.element 2) []) = .error .notDocument := by decide
+
+/-! # ================================================================================================
+    Completeness: the builder accepts EXACTLY the well-formed spellings
+    ================================================================================================
+
+`WellNsDoc` (Lemmas/ParseNsDefs.lean) is "what the builder accepts", written as a predicate on
+spellings (`NSNode`: prefixes, start-tag items as piece lists, CDATA interleaving, every span).
+`Props/C02.lean` proves SOUNDNESS (the tokens of a well-formed spelling are accepted and give the
+denoted document).  Here is the converse, by induction over the builder's loop (Lemmas/ParseNsComplete*.lean:
+every accepted token list is reconstructed as a spelling, clause by clause of `WellNsDoc`), so the
+`C03_reject_*` list above is COMPLETE: a token list is accepted if and only if it is the token list
+of a well-formed spelling.
+
+`WellSpelledTokens mode ts` (Lemmas/ParseNsCompleteTop.lean) :=
+  every XML-declaration token in `ts` says version 1.0, and `ts` WITHOUT its declaration tokens is
+  EXACTLY `tokensList sns` (every span, every byte position) for some `sns` with `WellNsDoc sns` —
+  in document mode with exactly one element and no text at top level (`AbstractTopNs`).
+
+The exact gap between `WellNsDoc` and the code, both sides spelled out:
+  * XML declaration: `WellNsDoc` spellings have none; the builder lets a version-1.0 declaration
+    token pass WHEREVER it stands (`C03_declaration_skipped`; from a string there is at most one, in
+    front) and refuses any other version (`C03_reject_version`).  Hence `declsV10` / `dropDecls`
+    in `WellSpelledTokens`.
+  * EMPTY text token: the builder makes an empty text node of it (`C03_empty_text_token_corner`);
+    no spelling has one (`SPart.Well`: a text part has at least one piece) and no tokenizer output
+    has one (`C03_lex_no_empty_text`).  It is excluded by the guard `Token.nonEmptyText`, which the
+    right-hand side implies (`C03_well_spelled_no_empty_text`) — so the guard only weakens the
+    direction accepted ⇒ spelled.
+  Nothing else: the prefix `xml` re-bound, PI targets with a colon, `p:xmlns` as an attribute, …
+  are INSIDE `WellNsDoc` (it mirrors the code), see its doc comment. -/
+
+/-- C03_accepts_iff_well_spelled: under the token-shape contract (`C03_lex_shape`) and without empty
+    text tokens, in both modes, from any base tables: the builder accepts a token list if and only
+    if it is — up to version-1.0 XML declarations — exactly the token list of a well-formed
+    spelling.  `→` is new (reconstruction), `←` is C02_spelled_ns. -/
+theorem C03_accepts_iff_well_spelled {env : Env} (h : EnvBaseNs env) (mode : Mode) (len : Nat) (ts : List Token)
+    (hs : TokenShape len ts none) (hne : ∀ t ∈ ts, t.nonEmptyText = true) :
+    (∃ p, build mode len env ts none = .ok p) ↔ WellSpelledTokens mode ts :=
+  build_accepts_iff h mode len ts hs.tags hne
+
+/-- … and the accepted parse IS the document the reconstructed spelling denotes (the tree read back
+    through the tables the parse leaves). -/
+theorem C03_accepted_is_denoted {env : Env} (h : EnvBaseNs env) (mode : Mode) (len : Nat) (ts : List Token)
+    (hs : TokenShape len ts none) (hne : ∀ t ∈ ts, t.nonEmptyText = true) {p : Parsed}
+    (hb : build mode len env ts none = .ok p) :
+    ∃ sns, WellNsDoc sns ∧ (mode = .document → AbstractTopNs (NSNode.denote.denoteList baseScope sns)) ∧
+      NSNode.tokens.tokensList sns = dropDecls ts ∧ p.tree.value = .document ∧
+      decodeNs p.env p.tree.kids = some (NSNode.denote.denoteList baseScope sns) :=
+  (build_complete h mode len ts hs.tags hne hb).2
+
+/-- The other direction with its result: a well-spelled list is accepted as the denoted document
+    (no hypothesis on the list: soundness needs neither the shape contract nor the guard). -/
+theorem C03_well_spelled_accepted {env : Env} (h : EnvBaseNs env) (mode : Mode) (len : Nat) (ts : List Token)
+    (hd : declsV10 ts) (sns : List NSNode) (hw : WellNsDoc sns)
+    (htop : mode = .document → AbstractTopNs (NSNode.denote.denoteList baseScope sns))
+    (htok : NSNode.tokens.tokensList sns = dropDecls ts) :
+    ∃ p, build mode len env ts none = .ok p ∧ p.tree.value = .document ∧
+      decodeNs p.env p.tree.kids = some (NSNode.denote.denoteList baseScope sns) :=
+  build_of_spelling h mode len ts hd sns hw htop htok
+
+/-- The same characterisation up to byte positions and whole-token spans (`Token.erase`,
+    `C02_positions_irrelevant`): accepted ⇔ the list passes `check_qname` (every empty prefix at
+    offset 0, the one position xot reads) and its erased tokens are those of a well-formed spelling. -/
+theorem C03_accepts_iff_well_spelled_erased {env : Env} (h : EnvBaseNs env) (mode : Mode) (len : Nat)
+    (ts : List Token) (hs : TokenShape len ts none) (hne : ∀ t ∈ ts, t.nonEmptyText = true) :
+    (∃ p, build mode len env ts none = .ok p) ↔ SpelledUpToPositions mode ts :=
+  build_accepts_iff_erased h mode len ts hs.tags hne
+
+/-- The guard is implied by the right-hand side: a well-spelled list has no empty text token.  So
+    without the guard: `(accepted ∧ no empty text token) ↔ well spelled`. -/
+theorem C03_well_spelled_no_empty_text {mode : Mode} {ts : List Token} (h : WellSpelledTokens mode ts) :
+    ∀ t ∈ ts, t.nonEmptyText = true :=
+  h.nonEmptyText
+
+theorem C03_accepts_iff_well_spelled_unguarded {env : Env} (h : EnvBaseNs env) (mode : Mode) (len : Nat)
+    (ts : List Token) (hs : TokenShape len ts none) :
+    ((∃ p, build mode len env ts none = .ok p) ∧ ∀ t ∈ ts, t.nonEmptyText = true) ↔ WellSpelledTokens mode ts :=
+  ⟨fun ⟨ha, hne⟩ => (C03_accepts_iff_well_spelled h mode len ts hs hne).mp ha,
+   fun hw => ⟨(C03_accepts_iff_well_spelled h mode len ts hs hw.nonEmptyText).mpr hw, hw.nonEmptyText⟩⟩
+
+/-- The corner the guard excludes, closed: the one-token list `[Text ""]` is accepted by
+    `parse_fragment`'s builder (an empty text node) and is the token list of no well-formed
+    spelling.  No tokenizer output contains such a token (`C03_lex_no_empty_text`). -/
+theorem C03_empty_text_token_corner :
+    (build .fragment 0 Env.fresh emptyTextTokens none).isOk = true ∧ ¬ WellSpelledTokens .fragment emptyTextTokens := by
+  refine ⟨by rw [build_eq_buildE]; decide +kernel, fun hw => ?_⟩
+  have := hw.nonEmptyText (.text ⟨[], 0⟩) (by simp [emptyTextTokens])
+  simp [Token.nonEmptyText] at this
+
+/-- The declaration corner: a version-1.0 XML declaration token is skipped in every builder state
+    (so also where no tokenizer puts one). -/
+theorem C03_declaration_skipped (b : Builder) (v : StrSpan) (e : Option StrSpan) (s : Option Bool) (sp : StrSpan)
+    (hv : v.text = ['1', '.', '0']) : b.step (.declaration v e s sp) = .ok b :=
+  step_declaration b e s sp hv
+
+/-- C03_rejects_everything_else: a token list (shape contract, no empty text token) that is NOT
+    well spelled is refused with an error — never a panic (`C03_nopanic`), never a tree.  The list of
+    `C03_reject_*` theorems is complete. -/
+theorem C03_rejects_everything_else {env : Env} (h : EnvBaseNs env) (mode : Mode) (len : Nat) (ts : List Token)
+    (hs : TokenShape len ts none) (hne : ∀ t ∈ ts, t.nonEmptyText = true) (hnot : ¬ WellSpelledTokens mode ts) :
+    ∃ e env', build mode len env ts none = .err e env' := by
+  cases hb : build mode len env ts none with
+  | ok p => exact absurd ((C03_accepts_iff_well_spelled h mode len ts hs hne).mp ⟨p, hb⟩) hnot
+  | err e env' => exact ⟨e, env', rfl⟩
+  | panic => exact absurd hb (C03_nopanic mode len env ts none hs)
+
+/-! ### … on strings -/
+
+/-- Every text token of the reference tokenizer is non-empty: the guard holds of every tokenizer
+    output, in both modes. -/
+theorem C03_lex_no_empty_text (m : Mode) (s : Str) : ∀ t ∈ (lexMode m s).1, t.nonEmptyText = true :=
+  fun t ht => nonEmptyText_of_accLex (C03_lex_classes m s t ht)
+
+/-- C03_string_accepts_iff: `parse` / `parse_fragment` accept a STRING if and only if the tokenizer
+    comes to its end without error and its tokens are (up to a version-1.0 XML declaration) exactly
+    the tokens of a well-formed spelling.  No hypothesis on the string. -/
+theorem C03_string_accepts_iff {env : Env} (h : EnvBaseNs env) (m : Mode) (s : Str) :
+    (∃ p, parseString m env s = .ok p) ↔ (lexMode m s).2 = none ∧ WellSpelledTokens m (lexMode m s).1 := by
+  have hshape := C03_lex_shape m s
+  have hne := C03_lex_no_empty_text m s
+  unfold parseString
+  cases hle : (lexMode m s).2 with
+  | none =>
+    rw [hle] at hshape
+    rw [C03_accepts_iff_well_spelled h m (strLen s) _ hshape hne]
+    simp
+  | some pos =>
+    constructor
+    · rintro ⟨p, hp⟩; exact absurd hp (C03_reject_lexerr m _ env _ pos p)
+    · rintro ⟨hn, _⟩; cases hn
+
+/-- … and what is accepted is the document the spelling denotes. -/
+theorem C03_string_accepted_is_denoted {env : Env} (h : EnvBaseNs env) (m : Mode) (s : Str) {p : Parsed}
+    (hp : parseString m env s = .ok p) :
+    ∃ sns, WellNsDoc sns ∧ (m = .document → AbstractTopNs (NSNode.denote.denoteList baseScope sns)) ∧
+      NSNode.tokens.tokensList sns = dropDecls (lexMode m s).1 ∧ p.tree.value = .document ∧
+      decodeNs p.env p.tree.kids = some (NSNode.denote.denoteList baseScope sns) := by
+  have hshape := C03_lex_shape m s
+  unfold parseString at hp
+  cases hle : (lexMode m s).2 with
+  | none =>
+    rw [hle] at hshape hp
+    exact C03_accepted_is_denoted h m _ _ hshape (C03_lex_no_empty_text m s) hp
+  | some pos => rw [hle] at hp; exact absurd hp (C03_reject_lexerr m _ env _ pos p)
+
+/-- Every other string is refused with an error: tokenizer error, or a token list that is no
+    well-formed spelling. -/
+theorem C03_string_rejects_everything_else {env : Env} (h : EnvBaseNs env) (m : Mode) (s : Str)
+    (hnot : ¬ ((lexMode m s).2 = none ∧ WellSpelledTokens m (lexMode m s).1)) :
+    ∃ e env', parseString m env s = .err e env' := by
+  cases hb : parseString m env s with
+  | ok p => exact absurd ((C03_string_accepts_iff h m s).mp ⟨p, hb⟩) hnot
+  | err e env' => exact ⟨e, env', rfl⟩
+  | panic => exact absurd hb (C03_string_nopanic m env s)
+
+/-! ### Non-vacuity -/
+
+section CompletenessExamples
+open XotModel.Witness
+
+/-- An accepted list with its reconstructed spelling: `goodDoc`, the tokens of
+    `<p:a xmlns:p='u' b='x&#10;y'><!--c-->t&lt;<![CDATA[c]]></p:a>`, IS the token list of
+    `goodDocSpelling` (Lemmas/ParseNsCompleteLex.lean), which is well formed; so it is accepted. -/
+example : NSNode.tokens.tokensList goodDocSpelling = goodDoc := by decide +kernel
+example : WellNsDoc goodDocSpelling := wellNsDocB_sound _ (by decide +kernel)
+example : NSNode.denote.denoteList baseScope goodDocSpelling =
+    [.elem ['u'] ['a'] [(['p'], ['u'])] [(([], ['b']), ['x', '\n', 'y'])] [.comment ['c'], .text ['t', '<', 'c']]] := by
+  rfl
+theorem C03_goodDoc_well_spelled : WellSpelledTokens .document goodDoc :=
+  ⟨declsV10_of_noDecl (by decide +kernel), goodDocSpelling, wellNsDocB_sound _ (by decide +kernel),
+    fun _ => ⟨by decide +kernel, fun d hd => by
+      simp only [goodDocSpelling, NSNode.denote.denoteList, NSNode.denote, List.append_nil, List.mem_singleton] at hd
+      subst hd; rfl⟩,
+    by decide +kernel⟩
+example : ∃ p, build .document goodDocLen Env.fresh goodDoc none = .ok p :=
+  (C03_accepts_iff_well_spelled envBaseNs_fresh .document goodDocLen goodDoc (tokenShape_of_B (by decide +kernel))
+    (by decide +kernel)).mpr C03_goodDoc_well_spelled
+
+/-- A rejected list: `<a></b>` (`mismatch`) is the token list of no well-formed spelling. -/
+example : ¬ WellSpelledTokens .document mismatch := fun hw => by
+  obtain ⟨p, hp⟩ := (C03_accepts_iff_well_spelled envBaseNs_fresh .document mismatchLen mismatch
+    (tokenShape_of_B (by decide +kernel)) (by decide +kernel)).mpr hw
+  have he : (build .document mismatchLen Env.fresh mismatch none).err? =
+      some (.invalidCloseTag [] ['b'] ⟨5, 6⟩) := by rw [build_eq_buildE]; decide +kernel
+  rw [hp] at he; cases he
+example : ∃ e env', build .document mismatchLen Env.fresh mismatch none = .err e env' :=
+  C03_rejects_everything_else envBaseNs_fresh .document mismatchLen mismatch (tokenShape_of_B (by decide +kernel))
+    (by decide +kernel) (fun hw => by
+      obtain ⟨p, hp⟩ := (C03_accepts_iff_well_spelled envBaseNs_fresh .document mismatchLen mismatch
+        (tokenShape_of_B (by decide +kernel)) (by decide +kernel)).mpr hw
+      have he : (build .document mismatchLen Env.fresh mismatch none).err? =
+          some (.invalidCloseTag [] ['b'] ⟨5, 6⟩) := by rw [build_eq_buildE]; decide +kernel
+      rw [hp] at he; cases he)
+
+/-- The declaration corner, closed: `<?xml version="1.0"?><a/>` as the tokenizer reports it is well
+    spelled (the declaration dropped, the rest is `declFirstSpelling`). -/
+example : WellSpelledTokens .document declFirstTokens :=
+  ⟨fun v e s sp hm => by
+      simp only [declFirstTokens, List.mem_cons, Token.declaration.injEq, reduceCtorEq, List.not_mem_nil, or_false] at hm
+      rw [hm.1],
+    declFirstSpelling, wellNsDocB_sound _ (by decide +kernel),
+    fun _ => ⟨by decide +kernel, fun d hd => by
+      simp only [declFirstSpelling, NSNode.denote.denoteList, NSNode.denote, List.append_nil, List.mem_singleton] at hd
+      subst hd; rfl⟩,
+    by decide +kernel⟩
+
+/-- On strings: `<a>x</a>` is accepted (tokenizer and builder), so the tokenizer came to its end and
+    its tokens are a well-formed spelling. -/
+example : (lexMode .document ['<', 'a', '>', 'x', '<', '/', 'a', '>']).2 = none ∧
+    WellSpelledTokens .document (lexMode .document ['<', 'a', '>', 'x', '<', '/', 'a', '>']).1 := by
+  apply (C03_string_accepts_iff envBaseNs_fresh .document _).mp
+  have hok : (parseString .document Env.fresh ['<', 'a', '>', 'x', '<', '/', 'a', '>']).isOk = true := by
+    have h := lexDocument_render lexWitness3 (by decide)
+    rw [show renderTokens lexWitness3 = ['<', 'a', '>', 'x', '<', '/', 'a', '>'] from by decide] at h
+    simp only [parseString, lexMode]
+    rw [h, build_eq_buildE]; decide +kernel
+  cases hb : parseString .document Env.fresh ['<', 'a', '>', 'x', '<', '/', 'a', '>'] with
+  | ok p => exact ⟨p, rfl⟩
+  | err e env' => rw [hb] at hok; cases hok
+  | panic => rw [hb] at hok; cases hok
+
+/-- … and `<a></b>` (which the tokenizer reads without error) is refused, so its tokens are no
+    well-formed spelling. -/
+example : ¬ WellSpelledTokens .document (lexMode .document ['<', 'a', '>', '<', '/', 'b', '>']).1 := by
+  intro hw
+  have h := lexDocument_render [.elementStart ⟨[], 0⟩ ⟨['a'], 0⟩ ⟨[], 0⟩, .elementEnd .open ⟨[], 0⟩,
+    .elementEnd (.close ⟨[], 0⟩ ⟨['b'], 0⟩) ⟨[], 0⟩] (by decide)
+  rw [show renderTokens [.elementStart ⟨[], 0⟩ ⟨['a'], 0⟩ ⟨[], 0⟩, .elementEnd .open ⟨[], 0⟩,
+    .elementEnd (.close ⟨[], 0⟩ ⟨['b'], 0⟩) ⟨[], 0⟩] = ['<', 'a', '>', '<', '/', 'b', '>'] from by decide] at h
+  have hle : (lexMode .document ['<', 'a', '>', '<', '/', 'b', '>']).2 = none := by
+    simp only [lexMode]; rw [h]
+  obtain ⟨p, hp⟩ := (C03_string_accepts_iff envBaseNs_fresh .document _).mpr ⟨hle, hw⟩
+  have herr : (parseString .document Env.fresh ['<', 'a', '>', '<', '/', 'b', '>']).isOk = false := by
+    simp only [parseString, lexMode]
+    rw [h, build_eq_buildE]; decide +kernel
+  rw [hp] at herr; cases herr
+
+end CompletenessExamples
 
 end XotModel.Props
